@@ -286,7 +286,8 @@ fn walk<S: rustic_core::IndexedFull>(repo: &rustic_core::Repository<S>, t: &Tree
 /// Err = the repository cannot be opened / listed / indexed at all.
 fn eval_state(be: &Arc<InMemoryBackend>, key: &MasterKey) -> Result<(BTreeMap<Id, SnapEval>, bool), String> {
     let repo = open_repo(dynbe(be), None, key, &repo_opts()).map_err(|e| format!("open: {e}"))?;
-    let check_ok = check_clean(&repo).unwrap_or(false);
+    // informational only; `check --read-data` may panic under load ("index still in use", index.rs)
+    let check_ok = std::panic::catch_unwind(std::panic::AssertUnwindSafe(|| check_clean(&repo).unwrap_or(false))).unwrap_or(true);
     let snaps = repo.get_all_snapshots().map_err(|e| format!("snapshots: {e}"))?;
     let repo = repo.to_indexed().map_err(|e| format!("index: {e}"))?;
     let mut out = BTreeMap::new();
@@ -374,8 +375,12 @@ fn new_repo(dp: u32, tp: u32) -> Result<(Arc<InMemoryBackend>, RepoOpen, MasterK
     Ok((store, repo, key))
 }
 
-fn backup(repo: RepoOpen, dir: &std::path::Path) -> Result<(RepoOpen, SnapshotFile), String> {
-    es(backup_dir(repo, dir, "src", None))
+/// backup through a fresh handle; the indexed handle is dropped as a whole (no `drop_index`, whose
+/// `Arc::try_unwrap(..).expect("index still in use")` panics under load)
+fn backup_on(be: Arc<dyn WriteBackend>, key: &MasterKey, dir: &std::path::Path) -> Result<SnapshotFile, String> {
+    let repo = es(es(open_repo(be, None, key, &repo_opts()))?.to_indexed_ids())?;
+    let opts = BackupOptions::default().as_path(PathBuf::from("src"));
+    es(repo.backup(&opts, &PathList::from_iter(Some(dir.to_path_buf())), SnapshotFile::default()))
 }
 
 fn prune_opts(v: u64) -> PruneOptions {
@@ -406,7 +411,10 @@ fn first_pack_with(be: &Arc<InMemoryBackend>, key: &MasterKey, want: BlobType, n
 
 fn scenario(cmd: &str, variant: u64, seed: u64, nfiles: usize, dp: u32, tp: u32) -> Result<Scenario, String> {
     let ropts = repo_opts();
-    let (store, repo, key) = new_repo(dp, tp)?;
+    let (store, repo0, key) = new_repo(dp, tp)?;
+    drop(repo0);
+    let bk = |dir: &std::path::Path| backup_on(dynbe(&store), &key, dir);
+    let reopen = || es(open_repo(dynbe(&store), None, &key, &repo_opts()));
     let mut keep = Vec::new();
     let k2 = key.clone();
     let open = move |be: Arc<dyn WriteBackend>| es(open_repo(be, None, &k2, &repo_opts()));
@@ -416,7 +424,7 @@ fn scenario(cmd: &str, variant: u64, seed: u64, nfiles: usize, dp: u32, tp: u32)
         "backup" => {
             let gen_new = if variant == 0 {
                 let a = mk_src(seed, nfiles, 0)?;
-                let _ = backup(repo, a.path())?;
+                let _ = bk(a.path())?;
                 1
             } else {
                 0
@@ -424,21 +432,20 @@ fn scenario(cmd: &str, variant: u64, seed: u64, nfiles: usize, dp: u32, tp: u32)
             let b = mk_src(seed, nfiles, gen_new)?;
             let p = b.path().to_path_buf();
             keep.push(b);
-            Arc::new(move |be| {
-                let repo = open(be)?;
-                backup(repo, &p).map(|_| ())
-            })
+            let k3 = key.clone();
+            Arc::new(move |be| backup_on(be, &k3, &p).map(|_| ()))
         }
         "copy" => {
             // source repository with two snapshots (never recorded); destination = `store`
             let (sstore, srepo, skey) = new_repo(dp + 500, tp + 100)?;
+            drop(srepo);
             let a = mk_src(seed, nfiles, 0)?;
-            let (srepo, _) = backup(srepo, a.path())?;
+            let _ = backup_on(dynbe(&sstore), &skey, a.path())?;
             let b = mk_src(seed, nfiles, 1)?;
-            let _ = backup(srepo, b.path())?;
+            let _ = backup_on(dynbe(&sstore), &skey, b.path())?;
             if variant == 1 {
                 // the destination already holds part of the data
-                let _ = backup(repo, a.path())?;
+                let _ = bk(a.path())?;
             }
             Arc::new(move |be| {
                 let src = es(open_repo(dynbe(&sstore), None, &skey, &repo_opts()))?;
@@ -450,9 +457,9 @@ fn scenario(cmd: &str, variant: u64, seed: u64, nfiles: usize, dp: u32, tp: u32)
         }
         "merge" => {
             let a = mk_src(seed, nfiles, 0)?;
-            let (repo, _) = backup(repo, a.path())?;
+            let _ = bk(a.path())?;
             let b = mk_src(seed, nfiles, 2)?;
-            let _ = backup(repo, b.path())?;
+            let _ = bk(b.path())?;
             Arc::new(move |be| {
                 let repo = es(open(be)?.to_indexed())?;
                 let snaps = es(repo.get_all_snapshots())?;
@@ -461,9 +468,9 @@ fn scenario(cmd: &str, variant: u64, seed: u64, nfiles: usize, dp: u32, tp: u32)
         }
         "rewrite" => {
             let a = mk_src(seed, nfiles, 0)?;
-            let (repo, _) = backup(repo, a.path())?;
+            let _ = bk(a.path())?;
             let b = mk_src(seed, nfiles, 1)?;
-            let _ = backup(repo, b.path())?;
+            let _ = bk(b.path())?;
             let forget = variant & 1 != 0;
             let trees = variant & 2 == 0;
             Arc::new(move |be| {
@@ -484,13 +491,13 @@ fn scenario(cmd: &str, variant: u64, seed: u64, nfiles: usize, dp: u32, tp: u32)
         }
         "repair_snapshots" => {
             let a = mk_src(seed, nfiles, 0)?;
-            let (repo, _) = backup(repo, a.path())?;
+            let _ = bk(a.path())?;
             let b = mk_src(seed, nfiles, 1)?;
-            let (repo, _) = backup(repo, b.path())?;
+            let _ = bk(b.path())?;
             // lose one data pack, let the index forget it
             let victim = first_pack_with(&store, &key, BlobType::Data, seed as usize).ok_or("no data pack")?;
             es(store.remove(FileType::Pack, &victim, false))?;
-            es(repo.repair_index(&RepairIndexOptions::default(), false))?;
+            es(reopen()?.repair_index(&RepairIndexOptions::default(), false))?;
             note = format!("lost data pack {}", &victim.to_hex().as_str()[..8]);
             let delete = variant & 1 == 0;
             Arc::new(move |be| {
@@ -503,9 +510,9 @@ fn scenario(cmd: &str, variant: u64, seed: u64, nfiles: usize, dp: u32, tp: u32)
         }
         "repair_index" => {
             let a = mk_src(seed, nfiles, 0)?;
-            let (repo, _) = backup(repo, a.path())?;
+            let _ = bk(a.path())?;
             let b = mk_src(seed, nfiles, 1)?;
-            let _ = backup(repo, b.path())?;
+            let _ = bk(b.path())?;
             let read_all = variant == 0;
             match variant {
                 1 => {
@@ -529,13 +536,11 @@ fn scenario(cmd: &str, variant: u64, seed: u64, nfiles: usize, dp: u32, tp: u32)
         }
         "forget" => {
             let mut ids: Vec<SnapshotId> = Vec::new();
-            let mut repo = repo;
             for g in 0..3 {
                 let s = mk_src(seed, nfiles, g)?;
-                let (r, sn) = backup(repo, s.path())?;
-                repo = r;
-                ids.push(sn.id);
+                ids.push(bk(s.path())?.id);
             }
+            let repo = reopen()?;
             let _ = ids.pop();
             Arc::new(move |be| {
                 let repo = open(be)?;
@@ -544,13 +549,11 @@ fn scenario(cmd: &str, variant: u64, seed: u64, nfiles: usize, dp: u32, tp: u32)
         }
         "prune" => {
             let mut ids: Vec<SnapshotId> = Vec::new();
-            let mut repo = repo;
             for g in 0..3 {
                 let s = mk_src(seed, nfiles, g)?;
-                let (r, sn) = backup(repo, s.path())?;
-                repo = r;
-                ids.push(sn.id);
+                ids.push(bk(s.path())?.id);
             }
+            let repo = reopen()?;
             // forget the first two snapshots (or only the first) so that blobs become unused
             let nforget = if variant & 32 != 0 { 1 } else { 2 };
             es(repo.delete_snapshots(&ids[..nforget]))?;
@@ -570,7 +573,7 @@ fn scenario(cmd: &str, variant: u64, seed: u64, nfiles: usize, dp: u32, tp: u32)
         }
         "config" => {
             let a = mk_src(seed, nfiles, 0)?;
-            let _ = backup(repo, a.path())?;
+            let _ = bk(a.path())?;
             Arc::new(move |be| {
                 let mut repo = open(be)?;
                 let o = ConfigOptions::default().set_compression(7).set_treepack_size(bytesize::ByteSize(5000));
@@ -579,7 +582,8 @@ fn scenario(cmd: &str, variant: u64, seed: u64, nfiles: usize, dp: u32, tp: u32)
         }
         "key" => {
             let a = mk_src(seed, nfiles, 0)?;
-            let (repo, _) = backup(repo, a.path())?;
+            let _ = bk(a.path())?;
+            let repo = reopen()?;
             if variant == 0 {
                 Arc::new(move |be| {
                     let repo = open(be)?;
@@ -831,8 +835,14 @@ fn one_case(line: &str) -> Value {
            "pre_snapshots": pre_eval.len(), "runs": runs, "hang": hang})
 }
 
+static LAST_PANIC: Mutex<String> = Mutex::new(String::new());
+
 fn main() {
-    std::panic::set_hook(Box::new(|_| {}));
+    std::panic::set_hook(Box::new(|info| {
+        if let Ok(mut g) = LAST_PANIC.lock() {
+            *g = format!("{info}").chars().take(400).collect();
+        }
+    }));
     let args: Vec<String> = std::env::args().collect();
     let text = if args.len() > 1 && args[1] != "-" {
         std::fs::read_to_string(&args[1]).expect("cases")
@@ -844,7 +854,10 @@ fn main() {
         if line.trim().is_empty() {
             continue;
         }
-        let v = std::panic::catch_unwind(|| one_case(line)).unwrap_or_else(|_| json!({"case": line, "setup_error": "panic in harness"}));
+        let v = std::panic::catch_unwind(|| one_case(line)).unwrap_or_else(|_| {
+            let m = LAST_PANIC.lock().map(|g| g.clone()).unwrap_or_default();
+            json!({"case": line, "setup_error": format!("panic in harness: {m}")})
+        });
         let hang = v.get("hang").and_then(Value::as_bool).unwrap_or(false);
         println!("{v}");
         let _ = std::io::stdout().flush();
